@@ -57,20 +57,41 @@ func verifCheckChunk(chunk *base.LogChunk, g *verifGhost, maxRecords, maxBytes i
 			sym.Assert(g.size() <= maxBytes, "size limit respected unless a single record")
 		}
 	}
+	payload := chunk.Data
 	if !sym.Symbolic() {
-		return // natively the real envelope wraps the payload
+		// natively the real envelope wraps the payload: [tag, bin payload, {size, chunk}]
+		r := &verifReader{b: chunk.Data}
+		sym.Assert(len(chunk.Data) > 0 && r.u8() == 0x93, "chunk carries the pipeline's tag")
+		r.str("the.tag", "chunk carries the pipeline's tag")
+		n := 0
+		switch r.u8() {
+		case 0xc4:
+			n = r.uN(1)
+		case 0xc5:
+			n = r.uN(2)
+		case 0xc6:
+			n = r.uN(4)
+		default:
+			sym.Assert(false, "payload length equals the streams written")
+		}
+		if r.p+n > len(chunk.Data) {
+			sym.Assert(false, "payload length equals the streams written")
+			return
+		}
+		payload = chunk.Data[r.p : r.p+n]
+	} else {
+		last := verifEncodedLog[len(verifEncodedLog)-1]
+		sym.Assert(last.params.ID == chunk.ID, "chunk id equals the id given to the encoder (storage name)")
+		sym.Assert(last.tag == "the.tag", "chunk carries the pipeline's tag")
+		sym.Assert(last.params.NumRecords == len(g.streams), "record count equals contents")
+		sym.Assert(last.params.NumBytes == g.size(), "byte count equals contents")
 	}
-	last := verifEncodedLog[len(verifEncodedLog)-1]
-	sym.Assert(last.params.ID == chunk.ID, "chunk id equals the id given to the encoder (storage name)")
-	sym.Assert(last.tag == "the.tag", "chunk carries the pipeline's tag")
-	sym.Assert(last.params.NumRecords == len(g.streams), "record count equals contents")
-	sym.Assert(last.params.NumBytes == g.size(), "byte count equals contents")
-	sym.Assert(len(chunk.Data) == g.size(), "payload length equals the streams written")
+	sym.Assert(len(payload) == g.size(), "payload length equals the streams written")
 	off := 0
 	for _, s := range g.streams {
 		j := sym.IntRange("anyIndex", 0, 200)
-		if j < len(s) {
-			sym.Assert(chunk.Data[off+j] == s[j], "payload holds the streams in order, byte for byte")
+		if j < len(s) && off+j < len(payload) {
+			sym.Assert(payload[off+j] == s[j], "payload holds the streams in order, byte for byte")
 		}
 		off += len(s)
 	}
